@@ -81,6 +81,11 @@ pub struct SimScenario {
     /// read-only shared file mapping), if that page is free
     #[serde(default)]
     pub immutable_after_text: bool,
+    /// the program text is mapped readable, WRITABLE and executable from the start (JIT-emitted
+    /// code, an image section linked writable, a page another tool left writable): asking for
+    /// that protection changes nothing and the OS reports the old protection as equal to the new
+    #[serde(default)]
+    pub text_rwx: bool,
     pub lifetimes: Vec<Lifetime>,
     /// free-text classes used for the distinct-case measure
     pub classes: Vec<String>,
@@ -662,7 +667,9 @@ pub fn generate(profile: &str, variant: &str, seed: u64, index: u64) -> SimScena
             opts.n_targets = 2 + rng.below(5) as usize;
             opts.n_bystanders = 1 + rng.below(4) as usize;
             opts.hood_class = Some(if rng.chance(1, 25) { 2 } else { *rng.pick(&[0, 0, 0, 3, 3]) });
-            buggify_kernel(&mut rng, &mut pol, &mut classes, false);
+            // (C12 is about what stays mapped: refused requests for memory in the middle of a
+            // placement scan are five times as frequent there)
+            buggify_kernel(&mut rng, &mut pol, &mut classes, profile == "C12");
             let l = gen_layout(&mut rng, arch, os, &pol, &opts);
             // rarely: one lifetime that keeps several hundred fakes alive at once
             let mass = rng.chance(1, 400);
@@ -866,6 +873,12 @@ fn finish(
             classes.sort();
         }
     }
+    // (own stream: the rest of the scenario does not depend on it)
+    let text_rwx = Rng::new(simos::rng::scenario_seed(seed, "S/text-rwx", index)).chance(1, 6);
+    if text_rwx {
+        classes.push("text-already-rwx".into());
+        classes.sort();
+    }
     SimScenario {
         engine: "S".into(),
         profile: profile.into(),
@@ -881,6 +894,7 @@ fn finish(
         forwarders: l.forwarders,
         pitch: l.pitch,
         immutable_after_text: l.immutable_after_text,
+        text_rwx,
         lifetimes,
         classes,
     }
